@@ -78,8 +78,12 @@ def _build():
     vm.add_real_var("t1", value=1.0)
     vm.add_real_var("t2", value=1.0)
     vm.add_complex_var("c", polar=True)
+    vm.add_complex_var("d", polar=True)
     vm.set_fix("f")
+    vm.set_fix("di")  # only the phase of d is fixed, its modulus stays free
     vm.set_same(["t1", "t2"])
+    vm.variables["dr"].assign(tensor_of(S.real("v_dr")))
+    vm.variables["di"].assign(tensor_of(S.angle("v_dphi", D=1)))
     # symbolic values
     vals = {"m": S.real("v_m"), "f": S.real("v_f"), "t1": S.real("v_t")}
     for k, v in vals.items():
@@ -135,7 +139,8 @@ def _apply(vm, op, k=0):
         return set()
     if name == "refresh":
         vm.refresh_vars()
-        return set(vm.trainable_vars) | {"t1", "t2", "cr", "ci"}
+        # re-randomisation may touch the free parameters only
+        return set(vm.trainable_vars) | ({"t1", "t2"} if ("t1" in vm.trainable_vars or "t2" in vm.trainable_vars) else set())
     if name == "rp2xy":
         vm.rp2xy("c")
         return set()
@@ -204,8 +209,11 @@ def job_histories(ss, seqs):
                 # I1 fixed parameter only changes when explicitly assigned
                 if "f" not in assigned:
                     ss.prove("vm.fixed_unchanged[%s]" % stag, F, far(after["f"], before["f"], 0), key="vm.fixed_unchanged." + nm, payload=pay, timeout=30, describe="a fixed parameter changes only when explicitly assigned")
-                # parameters not touched by the step keep their value
-                for n in ("m", "t1"):
+                # parameters not touched by the step keep their value (polar/Cartesian switches re-express c and d: their complex value is checked below)
+                coord = nm in ("rp2xy", "xy2rp", "std_polar", "standard_complex", "trans_cart", "trans_polar")
+                for n in ("m", "t1", "di", "dr", "cr", "ci"):
+                    if coord and n in ("di", "dr", "cr", "ci"):
+                        continue
                     if n not in assigned:
                         ss.prove("vm.untouched[%s,%s]" % (stag, n), F, far(after[n], before[n], 0), key="vm.untouched." + nm, payload=pay, timeout=30)
                 # I2 / I3 structure of the free list
